@@ -28,7 +28,7 @@ NOT_MODELLED = ("alias names and windows reaching into the history have no Coq m
                 "negated alias = negated answer, stored history unchanged); constant inputs / parameters through state_at, integrate_states")
 ASSUMPTIONS = ["histories contain no NaN in this check"]
 
-FEAT = {"history": True, "own_grid": True, "modes": True}
+FEAT = {"history": True, "own_grid": True, "modes": True, "equidistant_flag": True}
 
 
 def gen_queries(rng, s):
@@ -82,6 +82,9 @@ def gen_queries(rng, s):
     ders = ["der(%s)" % x for x in s["states"]]
     e = tr.lin_expr(rng, coll + ders + s["constant_inputs"], 3, allow_nonlinear=True)
     qs.append({"kind": "map_path", "m": rng.randrange(E), "expr": e})
+    for v in s.get("var_times", {}):
+        # a variable on its own grid inside an expression mapped over the horizon
+        qs.append({"kind": "map_path", "m": 0, "expr": ["+", ["v", v], ["c", "1"]]})
     qs.append({"kind": "results", "m": rng.randrange(E)})
     return qs
 
@@ -205,12 +208,30 @@ def run(ctx):
         jobs_in = [(r["spec"], r["queries"])]
     else:
         jobs_in = [(c["spec"], c["queries"]) for c in core.corpus_cases(ID)]
-        for _ in range(ctx.n(60, 2500)):
+        for i in range(ctx.n(60, 2500)):
             s = tr.gen_spec(ctx.rng, FEAT)
             for h in s.get("history", []):
                 for hv in h.values():
                     hv["values"] = [x if x != "nan" else "1" for x in hv["values"]]
             jobs_in.append((s, gen_queries(ctx.rng, s)))
+        # (own random stream) a control on the first two and the last stamp of a grid of >= 4 stamps, on a problem
+        # whose import data are reported equidistant, in every interpolation mode
+        import random
+        r3 = random.Random(1515)
+        k = 0
+        while k < ctx.n(6, 60):
+            s = tr.gen_spec(r3, FEAT)
+            if not s["controls"] or len(s["times"]) < 4:
+                continue
+            c0 = s["controls"][0]
+            s["var_times"] = {c0: [s["times"][0], s["times"][1], s["times"][-1]]}
+            s.setdefault("interpolation", {})[c0] = k % 3
+            s["equidistant"] = True
+            for h in s.get("history", []):
+                for hv in h.values():
+                    hv["values"] = [x if x != "nan" else "1" for x in hv["values"]]
+            jobs_in.append((s, gen_queries(r3, s)))
+            k += 1
     jobs = []
     for s, qs in jobs_in:
         try:
